@@ -79,9 +79,11 @@ fn add_failure_injection(p: &mut Pool, r: &mut crate::rng::Rng) {
         "{% if i == 2 and fail == 'loop' %}{{ nope }}{% endif %}{% if i == 3 %}{% break %}{% endif %}{% endfor %}",
         "{% for i in (1..2) %}{% tablerow j in (1..2) %}{% if j == 2 and fail == 'after-break' %}{{ nope }}{% endif %}",
         "{% if j == 1 and fail == 'after-break' %}{% break %}{% endif %}c{% endtablerow %}{% endfor %}",
-        "{% assign keep = tagv %}{% include 'pf' %}{% render 'pf', fail: fail, tagv: tagv %}|{{ keep }}|{% cycle 'z': 1, 2, 3 %}{% increment cnt %}"
+        "{% assign keep = tagv %}{% include pname %}{% render pname %}{% include 'pf' %}{% render 'pf', fail: fail, tagv: tagv %}|{{ keep }}|{% cycle 'z': 1, 2, 3 %}{% increment cnt %}"
     );
     p.partials.push(("pf".into(), "<{{ tagv }}{% capture pc %}in{% if fail == 'partial' %}{{ nope }}{% endif %}{% endcapture %}{{ pc }}{% increment cnt %}>".into()));
+    p.partials.push(("pg0".into(), "(g0:{{ tagv }})".into()));
+    p.partials.push(("pg1".into(), "(g1:{% increment cnt %})".into()));
     p.mains.push(designed.to_string());
     let modes = ["none", "capture", "loop", "after-break", "partial"];
     for (k, d) in p.datas.iter_mut().enumerate() {
@@ -89,6 +91,8 @@ fn add_failure_injection(p: &mut Pool, r: &mut crate::rng::Rng) {
             let mode = if k == 1 { "none" } else { r.choose(&modes) };
             kv.push(("fail".into(), crate::val::RVal::Str(mode.into())));
             kv.push(("tagv".into(), crate::val::RVal::Str(format!("T{k}"))));
+            // the same tag names a different partial for different data objects
+            kv.push(("pname".into(), crate::val::RVal::Str(["pg0", "pg1"][k % 2].into())));
         }
     }
 }
